@@ -163,6 +163,17 @@ func (p *Path) flush() { p.flushMode(false) }
 
 func (p *Path) flushAll() { p.flushMode(true) }
 
+// prepare makes the solver context complete for a query about t: variables
+// of t stop being isolated (their held-back constraints are sent).
+func (p *Path) prepare(t *Term) {
+	for _, v := range p.termVars(t) {
+		if vi := p.vinfo[v]; vi != nil {
+			vi.isolated = false
+		}
+	}
+	p.flush()
+}
+
 func (p *Path) flushMode(all bool) {
 	for ; p.asserted < len(p.pc); p.asserted++ {
 		p.unsent = append(p.unsent, p.pc[p.asserted])
@@ -276,7 +287,7 @@ func (p *Path) decide(t *Term, why string) bool {
 				}
 			}
 		} else {
-			p.flush()
+			p.prepare(t)
 			rT := p.solver.Check(t)
 			feasT = rT != Unsat
 			feasF = true
@@ -338,7 +349,7 @@ func (p *Path) concretise(s *Sym, why string) value {
 				}
 			}
 		} else {
-			p.flush()
+			p.prepare(s.t)
 			vals, complete = p.solver.Enumerate(s.t, p.P.Limits.MaxConc)
 		}
 		if !complete {
@@ -372,10 +383,22 @@ func (p *Path) assume(t *Term, why string) {
 		return
 	}
 	if !p.replaying() {
-		p.flush()
-		p.AssumeChecks++
-		if p.solver.Check(t) == Unsat {
-			panic(pathAbort{"assumption infeasible: " + why})
+		if v, vi := p.isolatedVar(t); v != nil {
+			ok := false
+			for _, x := range vi.dom {
+				if evalWith(t, v, x) != 0 {
+					ok = true
+				}
+			}
+			if !ok {
+				panic(pathAbort{"assumption infeasible: " + why})
+			}
+		} else {
+			p.prepare(t)
+			p.AssumeChecks++
+			if p.solver.Check(t) == Unsat {
+				panic(pathAbort{"assumption infeasible: " + why})
+			}
 		}
 	}
 	p.addPC(t)
@@ -396,7 +419,7 @@ func (p *Path) assert(clause string, t *Term, detail string) {
 		p.Violations = append(p.Violations, Violation{Clause: clause, Detail: detail, Model: m, Kind: "assert"})
 		panic(pathAbort{"violation " + clause})
 	}
-	p.flush()
+	p.prepare(t)
 	p.AssertsZ3++
 	if p.solver.Check(p.ts.Not(t)) == Unsat {
 		return
